@@ -25,6 +25,7 @@ def run(ck):
     q = ck.quick()
     models.heur_mc(ck, ["greedy", "roundrobin"], ["PartStep", "FinalOK"], maxn=5 if q else 6, maxv=5, maxk=4)
     models.kk_mc_replay(ck, 5 if q else 6, 5, 4)
+    models.multifit_mc_replay(ck, 5 if q else 6, 5, 4)
     P = scope.p_scope(ck, 6, 6, 4) if q else scope.p_scope(ck, 7, 7, 5)
     ck.exhaustive = True
     groups = []
